@@ -456,6 +456,98 @@ theorem unknown_product_no_data (H : Str → Str) (s : Server) (seqn : Nat) (q :
     rw [tcpExchange_endpoint H s seqn q hq.noslash hq.nonl, hr]
     exact ⟨rfl, .bpsv .emptyDocument, clientTcp_closed H⟩
 
+/-! #### the index is keyed by the exact product string
+
+`from_file` files every record under `build.product` and `latest_build` looks the requested name
+up as it is: two product strings that differ in anything — letter case, a blank at an end, `_`
+for `-`, one character more or less, Unicode composition or width — are two products (the
+validator accepts every non-empty string). The run asks for whole families of such neighbours
+(`key_neighbours` in harness/src/bin/c15.rs), side by side in one database and absent from it. -/
+
+/-- **latest_exact_key.** Whatever `latest_build` answers for `p` is a record of the database
+whose product string is `p` itself — never a record of a product with a similar name. -/
+theorem latest_exact_key (db : List Record) (p : Str) (r : Record) (h : latest db p = some r) :
+    r ∈ db ∧ r.product = p := by
+  rcases newest_is_max_build_time db p with ⟨hn, _⟩ | ⟨m, hm, hin, hp, _⟩
+  · rw [hn] at h; cases h
+  · rw [hm] at h; cases h; exact ⟨hin, hp⟩
+
+/-- a name no record carries exactly has no entry, however many records carry similar names. -/
+theorem absent_key_none (db : List Record) (p : Str) (h : ∀ r ∈ db, r.product ≠ p) :
+    latest db p = none := by
+  rcases newest_is_max_build_time db p with ⟨hn, _⟩ | ⟨m, _, hin, hp, _⟩
+  · exact hn
+  · exact absurd hp (h m hin)
+
+/-- **other_products_invisible.** The answer for `p` is a function of the records filed under
+exactly `p`: striking any records of other products out of the database (read backwards: adding
+them — newer ones, with names that differ from `p` only in case or by a blank) changes nothing. -/
+theorem other_products_invisible (db : List Record) (p : Str) (keep : Record → Bool)
+    (h : ∀ r ∈ db, r.product = p → keep r = true) :
+    latest (db.filter keep) p = latest db p := by
+  unfold latest ofProduct
+  rw [List.filter_filter]
+  congr 2
+  apply List.filter_congr
+  intro r hr
+  by_cases hp : r.product = p
+  · simp [hp, h r hr hp]
+  · simp [hp]
+
+/-- **products_exact / products_nodup.** The product list (`v1/summary`, `products()`) consists of
+the records' product strings as they are, each once: nothing is renamed, no two share an entry. -/
+theorem products_exact (db : List Record) (q : Str) :
+    q ∈ products db ↔ ∃ r ∈ db, r.product = q := by
+  induction db with
+  | nil => simp [products]
+  | cons a as ih =>
+    simp only [products, List.mem_cons, List.mem_filter, ih]
+    constructor
+    · rintro (h | ⟨⟨r, hr, hq⟩, _⟩)
+      · exact ⟨a, Or.inl rfl, h.symm⟩
+      · exact ⟨r, Or.inr hr, hq⟩
+    · rintro ⟨r, (rfl | hr), hq⟩
+      · exact Or.inl hq.symm
+      · by_cases hqa : q = a.product
+        · exact Or.inl hqa
+        · exact Or.inr ⟨⟨r, hr, hq⟩, by simpa using hqa⟩
+
+theorem products_nodup (db : List Record) : (products db).Nodup := by
+  induction db with
+  | nil => simp [products]
+  | cons a as ih =>
+    simp only [products, List.nodup_cons, List.mem_filter]
+    refine ⟨?_, ih.filter _⟩
+    rintro ⟨_, h⟩
+    simp at h
+
+/-- **near_miss_product_no_data.** A well-formed request for a name that no record carries
+exactly — e.g. `WOW_BETA` when the database has `wow_beta` and `WoW_Beta` — gets a closed
+connection / 404 and a client error on every transport. -/
+theorem near_miss_product_no_data (H : Str → Str) (s : Server) (seqn : Nat) (q : Req)
+    (hq : WellFormed q) (habs : ∀ r ∈ s.db, r.product ≠ q.product) :
+    respond H s seqn q = (if q.t = .http then .http none else .tcp []) ∧
+    ∃ e, query H (respond H s seqn q) = .error e :=
+  unknown_product_no_data H s seqn q hq (absent_key_none s.db q.product habs)
+
+def wBeta1 : Record :=
+  { wRec with
+    id := 1, product := "WoW_Beta".toList, build := "50000".toList,
+    buildTime := "2024-01-01T00:00:00+00:00".toList }
+def wBeta2 : Record :=
+  { wRec with
+    id := 2, product := "wow_beta".toList, build := "60000".toList,
+    buildTime := "2025-01-01T00:00:00+00:00".toList }
+
+/-- a test (kernel-evaluated instance, replayed on the real code by corpus/C15/key-case-neighbours.case):
+two products equal after case folding keep their own newest record, a third spelling has none. -/
+theorem case_neighbours_instance :
+    (latest [wBeta1, wBeta2] "WoW_Beta".toList).map (·.id) = some 1 ∧
+    (latest [wBeta1, wBeta2] "wow_beta".toList).map (·.id) = some 2 ∧
+    latest [wBeta1, wBeta2] "WOW_BETA".toList = none ∧
+    products [wBeta1, wBeta2] = ["WoW_Beta".toList, "wow_beta".toList] := by
+  decide
+
 /-! #### the reply texts stay clear of the framing patterns when the free-text fields do -/
 
 theorem versionsFields_all (P : Str → Prop) (hP : ∀ x, Plain x → P x) (r : Record) (n : Int)
